@@ -455,23 +455,25 @@ Fixpoint allocs {A} (f : fmt A) : bytes -> list alloc_req :=
               end
   end.
 
-(* every constant-bounded list of the format is bounded by [c] *)
-Fixpoint capped {A} (c : N) (f : fmt A) : Prop :=
+(* every constant-bounded list of the format is bounded by [c]; [r] says whether
+   counts checked against the remaining input (CKRem / CKPresRem) may occur *)
+Fixpoint capped {A} (r : bool) (c : N) (f : fmt A) : Prop :=
   match f with
-  | FSeq fa fb => capped c fa /\ capped c fb
-  | FBind fa k => capped c fa /\ forall a, capped c (k a)
-  | FMapD f _ _ _ _ => capped c f
-  | FGuard f _ => capped c f
-  | FOpt f => capped c f
-  | FList ck max f => (ck_rem ck = false -> max <= c) /\ forall i, capped c (f i)
+  | FSeq fa fb => capped r c fa /\ capped r c fb
+  | FBind fa k => capped r c fa /\ forall a, capped r c (k a)
+  | FMapD f _ _ _ _ => capped r c f
+  | FGuard f _ => capped r c f
+  | FOpt f => capped r c f
+  | FList ck max f => (if ck_rem ck then r = true else max <= c) /\ forall i, capped r c (f i)
   | _ => True
   end.
 
-(* an allocation request is fine when a list has at most max(c, input length)
-   elements and a byte copy is no longer than the input *)
-Definition alloc_ok (c len : N) (a : alloc_req) : Prop :=
+(* an allocation request is fine when a list has at most c elements — or, where
+   remaining-input checks occur, at most max(c, input length) — and a byte copy
+   is no longer than the input *)
+Definition alloc_ok (r : bool) (c len : N) (a : alloc_req) : Prop :=
   match a with
-  | AList n => n <= N.max c len
+  | AList n => n <= (if r then N.max c len else c)
   | ABytes n => n <= len
   end.
 
